@@ -31,6 +31,9 @@ RULE = (
 )
 MIN_NONTRIVIAL = {"quick": 4, "thorough": 130}
 SHARDS = {"quick": 6, "thorough": 16}
+# ladders up to nx = 2000 and the 1000 x 34 001 history take ~30 s alone, minutes when 16 shards and other
+# jobs share the machine (sweep #10 met the default 300 s): the watchdog only guards against a hang
+CASE_WATCHDOG_S = 1800
 WATCHDOG_S = {"quick": 900, "thorough": 7200}
 GENERATOR = {"nx": "25, 50, 100, 200 (+400 thorough)", "r": [4, 8, 16], "t_end": "[3, 12]", "p_f/p_i": "0.05..0.999", "parabolic ladders": "nx 10, 20, 40 (80) with uniform dt = theta dx^2, theta in [0.08, 0.24], t_end in [0.3, 1]"}
 ASSUMPTIONS = [
